@@ -1166,27 +1166,108 @@ func compact(raw []byte) string {
 	return b.String()
 }
 
-func parentName(root *node, pos int) string {
-	name := "root"
-	walk(root, func(x, p *node, slot int) {
-		if x.Pos == pos && p != nil {
-			name = kindName(p)
-			if p.Kind == kFilter {
-				if slot == 0 {
-					name += ".modifier"
-				} else {
-					name += ".else"
-				}
-			}
-		}
-	})
-	return name
-}
-
 type rejectCase struct {
 	variant string
 	pos     int
 	doc     []byte
+	mut     mutation // mutNone: the document text was broken instead
+}
+
+// blame finds who let a configuration through that had to be rejected: the mutated node itself, or the lowest
+// enclosing node that accepts its own sub-document although the mutated node alone is rejected.
+func blame(root *node, rc rejectCase) string {
+	if rc.mut.kind == mutNone {
+		return "document"
+	}
+	var path []*node
+	var find func(x *node) bool
+	find = func(x *node) bool {
+		path = append(path, x)
+		if x.Pos == rc.pos {
+			return true
+		}
+		for _, k := range x.Kids {
+			if find(k) {
+				return true
+			}
+		}
+		path = path[:len(path)-1]
+		return false
+	}
+	find(root)
+	for i := len(path) - 1; i >= 0; i-- {
+		doc := render(path[i], rc.mut)
+		if _, err, pan := safeParse(doc); err != nil || pan != "" {
+			continue
+		}
+		if i == len(path)-1 {
+			name := string(doc[2 : 2+bytes.IndexByte(doc[2:], '"')])
+			return "self:" + name
+		}
+		name := strings.TrimSuffix(kindName(path[i]), "+agg")
+		if path[i].Kind == kFilter {
+			if path[i].Kids[0] == path[i+1] {
+				name += ".modifier"
+			} else {
+				name += ".else"
+			}
+		}
+		return "swallowed_by:" + name
+	}
+	return "document"
+}
+
+// acceptedRejects collects wrongly accepted configurations; signatures are formed at the end of the run so that a
+// defect in code shared by all node types yields one signature instead of one per node type.
+var acceptedRejects = struct {
+	sync.Mutex
+	m map[string]map[string][]lib.Violation // variant -> blame -> cases (first 3 with details)
+	n map[string]int
+}{m: map[string]map[string][]lib.Violation{}, n: map[string]int{}}
+
+func recordAccepted(variant, who, desc string, rp replay) {
+	acceptedRejects.Lock()
+	defer acceptedRejects.Unlock()
+	if acceptedRejects.m[variant] == nil {
+		acceptedRejects.m[variant] = map[string][]lib.Violation{}
+	}
+	acceptedRejects.n[variant+"|"+who]++
+	if len(acceptedRejects.m[variant][who]) < 3 {
+		acceptedRejects.m[variant][who] = append(acceptedRejects.m[variant][who], lib.Violation{Desc: desc, Replay: rp})
+	}
+}
+
+func flushAccepted() {
+	var variants []string
+	for v := range acceptedRejects.m {
+		variants = append(variants, v)
+	}
+	sort.Strings(variants)
+	for _, v := range variants {
+		var whos, selfs []string
+		for w := range acceptedRejects.m[v] {
+			whos = append(whos, w)
+			if strings.HasPrefix(w, "self:") {
+				selfs = append(selfs, w)
+			}
+		}
+		sort.Strings(whos)
+		collapse := len(selfs) >= 4
+		done := false
+		for _, w := range whos {
+			sig := "reject:" + v + ":" + w + ":accepted"
+			if collapse && strings.HasPrefix(w, "self:") {
+				if done {
+					continue
+				}
+				done = true
+				sig = "reject:" + v + ":self:any_node_type:accepted"
+			}
+			for _, c := range acceptedRejects.m[v][w] {
+				rep.Violate(sig, c.Desc+fmt.Sprintf(" [%d cases accepted by %s]", acceptedRejects.n[v+"|"+w], w), c.Replay)
+			}
+		}
+	}
 }
 
 func rejectCases(root *node) []rejectCase {
@@ -1197,9 +1278,11 @@ func rejectCases(root *node) []rejectCase {
 	spans := make([]span, n)
 	walk(root, func(x, _ *node, _ int) { spans[x.Pos] = span{x.start, x.end} })
 	for pos := 0; pos < n; pos++ {
-		out = append(out, rejectCase{"unknown_name", pos, render(root, mutation{mutName, pos, ""})})
+		mu := mutation{mutName, pos, ""}
+		out = append(out, rejectCase{"unknown_name", pos, render(root, mu), mu})
 		for _, sc := range []string{`"scope":["bogus"]`, `"scope":["request","bogus"]`, `"scope":["bogus","response"]`} {
-			out = append(out, rejectCase{"unsupported_scope", pos, render(root, mutation{mutScope, pos, sc})})
+			mu := mutation{mutScope, pos, sc}
+			out = append(out, rejectCase{"unsupported_scope", pos, render(root, mu), mu})
 		}
 		for _, leaf := range []string{
 			`{"url.Modifier":{"scope":["response"],"path":"/hit"}}`,
@@ -1207,20 +1290,21 @@ func rejectCases(root *node) []rejectCase {
 			`{"status.Modifier":{"scope":["request"],"statusCode":418}}`,
 			`{"status.Modifier":{"statusCode":418,"scope":["response","request"]}}`,
 		} {
-			out = append(out, rejectCase{"unimplemented_scope", pos, render(root, mutation{mutReplace, pos, leaf})})
+			mu := mutation{mutReplace, pos, leaf}
+			out = append(out, rejectCase{"unimplemented_scope", pos, render(root, mu), mu})
 		}
 		s, e := spans[pos].s, spans[pos].e
 		cat := func(parts ...[]byte) []byte { return bytes.Join(parts, nil) }
 		out = append(out,
-			rejectCase{"malformed_truncated", pos, cat(base[:s+1])},
-			rejectCase{"malformed_truncated", pos, cat(base[:(s+e)/2])},
-			rejectCase{"malformed_unbalanced", pos, cat(base[:e-1], base[e:])},
-			rejectCase{"malformed_stray_comma", pos, cat(base[:s+1], []byte(","), base[s+1:])},
-			rejectCase{"malformed_unquoted_key", pos, cat(base[:s+1], base[s+2:])},
+			rejectCase{"malformed_truncated", pos, cat(base[:s+1]), mutation{}},
+			rejectCase{"malformed_truncated", pos, cat(base[:(s+e)/2]), mutation{}},
+			rejectCase{"malformed_unbalanced", pos, cat(base[:e-1], base[e:]), mutation{}},
+			rejectCase{"malformed_stray_comma", pos, cat(base[:s+1], []byte(","), base[s+1:]), mutation{}},
+			rejectCase{"malformed_unquoted_key", pos, cat(base[:s+1], base[s+2:]), mutation{}},
 		)
 	}
-	out = append(out, rejectCase{"malformed_trailing", 0, append(append([]byte{}, base...), '}')},
-		rejectCase{"malformed_trailing", 0, append(append([]byte{}, base...), base...)})
+	out = append(out, rejectCase{"malformed_trailing", 0, append(append([]byte{}, base...), '}'), mutation{}},
+		rejectCase{"malformed_trailing", 0, append(append([]byte{}, base...), base...), mutation{}})
 	return out
 }
 
@@ -1277,7 +1361,7 @@ func (w *handlerWorker) tree(root *node) {
 			continue
 		}
 		if code == 200 {
-			rep.Violate("reject:"+rc.variant+":under_"+parentName(root, rc.pos)+":accepted",
+			recordAccepted(rc.variant, blame(root, rc),
 				fmt.Sprintf("configuration %s (%s at node %d) was accepted with 200", rc.doc, rc.variant, rc.pos), replay{Part: "reject", Config: string(rc.doc), Previous: string(doc)})
 			w.post(doc)
 			continue
@@ -1499,6 +1583,7 @@ func main() {
 		phaseCost = append(phaseCost, fmt.Sprintf("%s:%s:%v wall=%.1fs cpu=%.1fs", p.part, p.a.name, p.sizes, time.Since(t0).Seconds(), cpuSeconds()-c0))
 	}
 	rep.Coverage["phase_cost"] = phaseCost
+	flushAccepted()
 	if total.unclassified > 0 {
 		rep.Incomplete = fmt.Sprintf("more than %d failing trees: %d further failing trees were counted but not minimised/classified", maxMinimised, total.unclassified)
 	}
